@@ -430,6 +430,143 @@ def bounded_counter(fn, block, ops):
     return block not in fn.reach(block, avoid=nexts)
 
 
+def counting_fn(p, path):
+    """(param index, predicate path) if the local function `path` is `xs.iter().filter(|x| pred(x)).count()` of a parameter"""
+    f = p.fns.get(path)
+    if f is None:
+        return None
+    e = deep_strip(f.local_expr(0))
+    if e[0] != "call" or e[1] != "core::iter::traits::iterator::Iterator::count":
+        return None
+    fl = deep_strip(e[2][0])
+    if fl[0] != "call" or fl[1] != "core::iter::traits::iterator::Iterator::filter":
+        return None
+    it = deep_strip(fl[2][0])
+    if it[0] != "call" or not it[1].endswith("::iter") or deep_strip(it[2][0])[0] != "param":
+        return None
+    clo = [x for x in walk(fl[2][1]) if x[0] == "closure"]
+    if not clo or clo[0][1] not in p.fns:
+        return None
+    cf = p.fns[clo[0][1]]
+    ce = deep_strip(cf.local_expr(0))
+    if ce[0] != "call" or ce[1] not in p.fns or not any(x == ("param", 2) for x in walk(ce)):
+        return None
+    return deep_strip(it[2][0])[1], ce[1]
+
+
+def _same_value(fn, l1, l2):
+    """two locals hold the same value: copies of one local, or two loads of the same field place with no store to
+    that field on any path from the first load to the second"""
+    r1, r2 = _root_local(fn, l1), _root_local(fn, l2)
+    if r1 == r2:
+        return True
+    d1, d2 = [d for d in fn.defs(r1)], [d for d in fn.defs(r2)]
+    if len(d1) != 1 or len(d2) != 1 or d1[0][0] or d2[0][0] or d1[0][3] != "rv" or d2[0][3] != "rv":
+        return False
+    v1, v2 = d1[0][4], d2[0][4]
+    if v1["k"] != "use" or v2["k"] != "use":
+        return False
+    p1, p2 = v1["a"].get("copy"), v2["a"].get("copy")
+    if not p1 or not p2 or p1 != p2 or not p1["p"] or not (1 <= p1["l"] <= fn.nargs):
+        return False
+    flds = [e.get("f") for e in p1["p"] if isinstance(e, dict) and "f" in e]
+    if not flds:
+        return False
+    b1, b2 = d1[0][1], d2[0][1]
+    for (b, i, st) in fn.assigns():
+        if any(isinstance(e, dict) and e.get("f") == flds[-1] for e in st["lhs"]["p"]):
+            for x, y in ((b1, b2), (b2, b1)):
+                if (b == x or b in fn.reach(x)) and (b == y or y in fn.reach(b)):
+                    return False
+    # a call in between could only write it through the parameter itself (borrowed by this function): none receives it
+    for c in fn.calls():
+        if any(deep_strip(x) == ("param", p1["l"]) for x in c.arg_exprs()):
+            for x, y in ((b1, b2), (b2, b1)):
+                if (c.block == x or c.block in fn.reach(x)) and (c.block == y or y in fn.reach(c.block)):
+                    return False
+    return True
+
+
+def scan_exhausted(p, fn, block, a, b):
+    """`a - count(xs)` after a loop over all of xs that counted down from a: the site runs only once the loop's
+    iterator over xs returned None, the loop's counter starts at a, every element satisfying the counted predicate
+    either decrements the counter by one or leaves the loop for good, and a decrement is never reached with the
+    counter at zero (that would be its own site).  Then count(xs) = a - counter <= a."""
+    la, lb = _local_of(a), _local_of(b)
+    if la is None or lb is None:
+        return None
+    cdefs = [d for d in fn.defs(_root_local(fn, lb)) if not d[0]]
+    if len(cdefs) != 1 or cdefs[0][3] != "call":
+        return None
+    ct = cdefs[0][4]
+    cpath = ct.get("resolved") if ct.get("resolved_local") else None
+    cf = counting_fn(p, cpath) if cpath else None
+    if cf is None or len(ct.get("args", [])) < cf[0]:
+        return None
+    pred = cf[1]
+    xs = deep_strip(fn.expr(ct["args"][cf[0] - 1]))
+    if xs[0] != "param":
+        return None
+    ra = _root_local(fn, la)
+    for sb, si, al in fn.conditions(block):
+        d = strip(si.discr)
+        if d[0] != "discr" or {si.label(v) for v, _ in al} != {"None"}:
+            continue
+        nx = deep_strip(d[1])
+        if nx[0] != "call" or nx[1] != "core::iter::traits::iterator::Iterator::next" or not fn.in_loop(nx[3]):
+            continue
+        recv = deep_strip(nx[2][0])
+        if recv[0] == "call" and recv[1] == "core::iter::traits::iterator::Iterator::enumerate":
+            recv = deep_strip(recv[2][0])
+        if not (recv[0] == "call" and recv[1].endswith("::iter") and deep_strip(recv[2][0]) == xs):
+            continue
+        nblock = nx[3]
+        # the counter: one initialisation from a, one `k = k - 1` in the loop, never borrowed mutably
+        for k in range(len(fn.locals)):
+            ds = [d_ for d_ in fn.defs(k)]
+            if len(ds) != 2 or any(d_[0] or d_[3] != "rv" for d_ in ds):
+                continue
+            init = [d_ for d_ in ds if d_[4]["k"] == "use" and _local_of(d_[4]["a"]) is not None and _same_value(fn, _local_of(d_[4]["a"]), la) and not fn.in_loop(d_[1])]
+            dec = [d_ for d_ in ds if d_ not in init]
+            if len(init) != 1 or len(dec) != 1 or not fn.in_loop(dec[0][1]):
+                continue
+            de = deep_strip(fn._rvalue(dec[0][4], frozenset(), 8, dec[0][1]))
+            if de[0] == "field" and de[2] == "0":
+                de = deep_strip(de[1])
+            if not (de[0] == "bin" and de[1].replace("WithOverflow", "") == "Sub" and deep_strip(de[3]) == ("const", "int", 1)):
+                continue
+            src = dec[0][4].get("a") if dec[0][4]["k"] == "bin" else None
+            if dec[0][4]["k"] == "bin" and _local_of(dec[0][4]["a"]) != k:
+                continue
+            if dec[0][4]["k"] != "bin":
+                # checked form: tmp = SubWithOverflow(k, 1); k = move tmp.0
+                tl = _local_of(dec[0][4].get("a", {}))
+                tds = [d_ for d_ in fn.defs(tl)] if tl is not None else []
+                if len(tds) != 1 or tds[0][3] != "rv" or tds[0][4]["k"] != "bin" or _local_of(tds[0][4]["a"]) != k:
+                    continue
+            borrowed = any(st["k"] == "assign" and st["rv"]["k"] in ("ref", "rawptr") and st["rv"]["place"]["l"] == k and (st["rv"].get("mut") or st["rv"]["k"] == "rawptr")
+                           for b_ in fn.blocks for st in b_["stmts"])
+            if borrowed:
+                continue
+            # every element for which the predicate holds decrements (or leaves the loop)
+            psw = []
+            for b_ in fn.blocks:
+                if b_["term"]["k"] != "switch" or b_["id"] not in fn.reachable_blocks() or not fn.in_loop(b_["id"]):
+                    continue
+                sj = SwitchInfo(fn, b_["id"])
+                dj = deep_strip(sj.discr)
+                if sj.is_bool and dj[0] == "call" and dj[1] == pred and any(x[0] == "call" and len(x) > 3 and x[3] == nblock and x[1].endswith("Iterator::next") for x in walk(dj)):
+                    psw.append(sj)
+            if len(psw) != 1:
+                continue
+            t_true = psw[0].target_of(True)
+            if t_true is None or nblock in fn.reach(t_true, avoid={dec[0][1]}, include_src=True):
+                continue
+            return ("the minuend is the budget a scan over the whole of %s started with; the scan decrements its counter once per element "
+                    "satisfying %s and this site runs only after the scan visited every element, so %s(..) <= the budget" % (show(xs, 2), short(pred), short(cpath)))
+    return None
+
+
 def discharge_by_guard(p, s):
     """Returns a reason string if a dominating guard makes the site unreachable/unfailing."""
     fn = s.fn
@@ -475,6 +612,9 @@ def discharge_by_guard(p, s):
                 # the subtraction's own assignment to l happens after the check in the same iteration:
                 if must_hold_at(fn, s.block, lambda x, y: (x, y) in edges, lambda x: False, lambda x: x in defs and x != s.block):
                     return "minuend _%d is checked non-zero before `- 1` on every path" % l
+            why = scan_exhausted(p, fn, s.block, a, b)
+            if why:
+                return why
             return None
         if k == "Overflow(Rem)":
             # signed MIN % -1: divisor constant other than -1, or guarded positive
@@ -740,6 +880,34 @@ def match_pattern(site, pats):
             st = stores_to(site)
             if st == {pt["stores_to"]}:
                 return pt
+        if "minuend_field" in pt:
+            # counter -= count(prefix of the slice just handed to the inner writer, as long as the writer reported):
+            # the subtrahend is bounded by what the forwarded slice holds, whatever bounded that slice
+            if site.fn.path != pt.get("fn") or len(site.ops) < 2:
+                continue
+            m = deep_strip(site.ops[0])
+            malts = m[1] if m[0] == "phi" else (m,)
+            if not any(deep_strip(x)[0] == "field" and deep_strip(x)[2] == pt["minuend_field"] and deep_strip(deep_strip(x)[1]) in (("param", 1), ("deref", ("param", 1))) for x in malts):
+                continue
+            c = deep_strip(site.ops[1])
+            if c[0] != "call" or not c[1].endswith(pt.get("count_fn", "\0")) or len(c[2]) != 1:
+                continue
+            pre = deep_strip(c[2][0])
+            if pre[0] != "call" or pre[1] != "core::ops::index::Index::index":
+                continue
+            fwd = [w_ for w_ in site.fn.calls("std::io::Write::write")]
+            if len(fwd) == 1 and _sig(fwd[0].arg(1)) == _sig(pre) and deep_strip(pre[2][0])[0] == "param":
+                return pt       # the forwarded slice itself
+            whole, rg = deep_strip(pre[2][0]), deep_strip(pre[2][1])
+            if rg[0] != "agg" or not rg[1].endswith("range::RangeTo"):
+                continue
+            end = deep_strip(_canon_try(dict(rg[3])["end"]))
+            # end = (write(w, whole') as Ok).0 with whole' the same slice
+            if end[0] == "field" and end[2] == "0" and end[1][0] == "as" and end[1][2] == "Ok":
+                wc = deep_strip(end[1][1])
+                if wc[0] == "call" and wc[1] == "std::io::Write::write" and len(wc[2]) == 2 and _sig(wc[2][1]) == _sig(whole):
+                    return pt
+            continue
         if "range_bounds" in pt:
             # a str sliced with bounds that are all positions the scanner itself produced on that same string
             if site.fn.path != pt.get("fn") or len(site.ops) < 2 or _sig(site.ops[0]) != pt.get("ops0"):
